@@ -1,134 +1,12 @@
 --------------------------- MODULE MarkerSemantics ---------------------------
 (***************************************************************************)
-(* PEP 508 marker semantics (the MEANING of C03 / C02 / C11) and the       *)
-(* marker <-> specifier bridge of dep_logic/markers/single.py              *)
-(* (MarkerExpression._get_specifier, from_specifier) as ALGORITHM.         *)
-(*                                                                         *)
-(* Environments are records over a finite grid; python_version is always   *)
-(* derived from python_full_version.  Version-valued variables compare     *)
-(* through the PEP 440 clause semantics of Pep440Ops (as packaging does    *)
-(* for python_version, python_full_version, platform_release and           *)
-(* implementation_version); `in` / `not in` are substring containment on   *)
-(* the TEXT (character sequences), also for version-valued variables;      *)
-(* string variables use letter sequences so that equal / substring         *)
-(* relations are computed; `extra` compares PEP 685 normalisation classes. *)
+(* State machines over MarkerSemOps (PEP 508 Eval, the specifier view,     *)
+(* from_specifier, the python_version normalisation):                      *)
+(*   Atoms     every atom of the alphabet evaluated in every environment   *)
+(*   Trees     depth-2 and/or trees                                        *)
+(*   FromSpec  simple ranges / parsed clauses through from_specifier       *)
 (***************************************************************************)
-EXTENDS Pep440Ops
-
-CONSTANTS PfvPoints,      \* environment values of python_full_version: set of <<X, Y, Z>>
-          RelPoints,      \* environment values of platform_release: set of release sequences
-          VerLits,        \* literals for version atoms: set of release sequences (1-3 segments)
-          ListItems,      \* python_version values usable in `in` lists: set of <<X, Y>>
-          StrMax          \* max length of string literals / environment strings
-
-\* ------------------------------------------------------------------ texts
-Digits(n) == IF n < 10 THEN <<n>> ELSE <<n \div 10, n % 10>>
-DOT == 10  COMMA == 11  SPACE == 12
-RECURSIVE RelText(_)
-RelText(rel) == IF Len(rel) = 1 THEN Digits(rel[1]) ELSE Digits(rel[1]) \o <<DOT>> \o RelText(Tail(rel))
-RECURSIVE ListText(_)
-ListText(items) == IF Len(items) = 1 THEN RelText(items[1]) ELSE RelText(items[1]) \o <<COMMA, SPACE>> \o ListText(Tail(items))
-IsSubSeq(x, y) == \E i \in 0..(Len(y) - Len(x)) : SubSeq(y, i + 1, i + Len(x)) = x
-
-Letters == {"a", "b"}
-RECURSIVE StrsUpTo(_)
-StrsUpTo(n) == IF n = 0 THEN {<<>>}
-               ELSE LET S == StrsUpTo(n - 1) IN S \cup { Append(s, x) : s \in { t \in S : Len(t) = n - 1 }, x \in Letters }
-Strs == StrsUpTo(StrMax)
-
-\* PEP 685 names: [cls, sp] - two spellings of class 2 normalise to the same name
-Names == { [cls |-> 1, sp |-> 1], [cls |-> 2, sp |-> 1], [cls |-> 2, sp |-> 2], [cls |-> 3, sp |-> 1] }
-NoName == [cls |-> 0, sp |-> 1]
-
-\* ------------------------------------------------------------------ environments
-Envs == [pfv : PfvPoints, rel : RelPoints, os : Strs, extra : {NoName, [cls |-> 1, sp |-> 1], [cls |-> 2, sp |-> 2]},
-         extras : { {}, {[cls |-> 1, sp |-> 1]}, {[cls |-> 2, sp |-> 1], [cls |-> 3, sp |-> 1]} }]
-EnvVersion(var, e) == CASE var = "python_version" -> <<e.pfv[1], e.pfv[2]>>
-                        [] var = "python_full_version" -> e.pfv
-                        [] var = "platform_release" -> e.rel
-
-\* ------------------------------------------------------------------ atoms
-VerOps  == {"==", "!=", "<", "<=", ">", ">=", "~=", "==*", "!=*"}
-VerAtoms == { a \in [kind : {"ver"}, var : {"python_version", "python_full_version", "platform_release"}, op : VerOps,
-                     rel : VerLits, rev : BOOLEAN] :
-                /\ (a.op = "~=" => Len(a.rel) >= 2)
-                /\ (a.op \in {"==*", "!=*"} => Len(a.rel) <= 2)
-                /\ (a.rev => a.op \notin {"~=", "==*", "!=*"})               \* both operand orders: comparison operators
-                /\ (a.var = "python_version" => Len(a.rel) <= 2) }
-ListAtoms == { [kind |-> "list", var |-> "python_version", op |-> o, items |-> <<x, y>>] :
-                 o \in {"in", "not in"}, x \in ListItems, y \in ListItems } \cup
-             { [kind |-> "list", var |-> "python_version", op |-> o, items |-> <<x>>] : o \in {"in", "not in"}, x \in ListItems }
-StrAtoms == { a \in [kind : {"str"}, var : {"os_name"}, op : {"==", "!=", "in", "not in"}, lit : Strs, rev : BOOLEAN] : TRUE }
-ExtraAtoms == [kind : {"extra"}, op : {"==", "!="}, name : Names, rev : BOOLEAN]
-MemberAtoms == [kind : {"member"}, var : {"extras"}, op : {"in", "not in"}, name : Names]
-Atoms == VerAtoms \cup ListAtoms \cup StrAtoms \cup ExtraAtoms \cup MemberAtoms
-
-\* ------------------------------------------------------------------ MEANING: Eval
-EvalAtom(a, e) ==
-  CASE a.kind = "ver" ->
-         LET ev == Final(EnvVersion(a.var, e))  lit == Final(a.rel) IN
-         IF a.rev THEN Sat(Clause(a.op, ev), lit)        \* Specifier(op + environment value).contains(literal)
-         ELSE Sat(Clause(a.op, lit), ev)                 \* Specifier(op + literal).contains(environment value)
-    [] a.kind = "list" ->
-         LET inside == IsSubSeq(RelText(EnvVersion(a.var, e)), ListText(a.items)) IN
-         IF a.op = "in" THEN inside ELSE ~inside
-    [] a.kind = "str" ->
-         (CASE a.op = "==" -> e.os = a.lit
-            [] a.op = "!=" -> e.os # a.lit
-            [] a.op = "in" -> IF a.rev THEN IsSubSeq(a.lit, e.os) ELSE IsSubSeq(e.os, a.lit)
-            [] a.op = "not in" -> IF a.rev THEN ~IsSubSeq(a.lit, e.os) ELSE ~IsSubSeq(e.os, a.lit))
-    [] a.kind = "extra" -> IF a.op = "==" THEN e.extra.cls = a.name.cls ELSE e.extra.cls # a.name.cls
-    [] a.kind = "member" -> LET inside == \E n \in e.extras : n.cls = a.name.cls IN IF a.op = "in" THEN inside ELSE ~inside
-
-RECURSIVE Eval(_, _)
-Eval(t, e) == CASE t.k = "atom" -> EvalAtom(t.a, e)
-                [] t.k = "and"  -> \A i \in 1..Len(t.ch) : Eval(t.ch[i], e)
-                [] t.k = "or"   -> \E i \in 1..Len(t.ch) : Eval(t.ch[i], e)
-
-\* ------------------------------------------------------------------ ALGORITHM: the bridge (C11)
-\* MarkerExpression._get_specifier for version-like atoms.  The stored operator of a literal-left
-\* atom is already reflected by the parser (get_reflect_op), so the view is parse(op' + value).
-Reflect(op) == CASE op = "<" -> ">" [] op = "<=" -> ">=" [] op = ">" -> "<" [] op = ">=" -> "<=" [] OTHER -> op
-StoredOp(a) == IF a.rev THEN Reflect(a.op) ELSE a.op
-SpecifierView(a) ==
-  IF a.kind = "ver" THEN Translate(Clause(StoredOp(a), Final(a.rel)))
-  ELSE \* python_version in/not in "X.Y, ...": `in` -> ==X.Y.* || ..., `not in` -> !=X.Y.*, ... (an intersection)
-       [i \in 1..Len(a.items) |-> Translate(Clause("==*", Final(a.items[i])))[1]]
-ViewAdmits(a, v) ==
-  IF a.kind = "ver" THEN InRanges(SpecifierView(a), Final(v))
-  ELSE IF a.op = "in" THEN InRanges(SpecifierView(a), Final(v)) ELSE ~InRanges(SpecifierView(a), Final(v))
-\* `in` on a version variable is substring containment in evaluate(); the specifier view reads the
-\* literal as a set of release series.  Named deviation (DESIGN section 6 item 12):
-ListViewIsSetOfSeries(a, v) ==
-  a.kind = "list" /\ (IsSubSeq(RelText(v), ListText(a.items)) # (\E i \in 1..Len(a.items) : a.items[i] = v))
-
-\* _normalize_python_version_specifier: a python_version atom re-expressed as a python_full_version
-\* specifier, used when python_version and python_full_version atoms are merged
-\* (== / != get a wildcard, > X.Y becomes >= X.(Y+1), <= X.Y becomes < X.(Y+1); a one-segment
-\*  operand "X" compares like "X.0" - fix commit 1f6b13e).
-OneSegmentPadsToTwo == TRUE
-NormalizeView(a) ==
-  IF a.kind # "ver" \/ Len(a.rel) > 2 \/ a.op \in {"==*", "!=*"} THEN SpecifierView(a)
-  ELSE LET op  == StoredOp(a)
-           rel == IF Len(a.rel) = 1 /\ OneSegmentPadsToTwo THEN Append(a.rel, 0) ELSE a.rel
-       IN CASE op \in {"==", "!="} -> Translate(Clause(op \o "*", Final(rel)))
-            [] op = ">"  -> Translate(Clause(">=", Final(Bump(rel))))
-            [] op = "<=" -> Translate(Clause("<", Final(Bump(rel))))
-            [] OTHER     -> Translate(Clause(op, Final(rel)))
-
-\* MarkerExpression.from_specifier(name, range) for a simple range; "" = None
-PadTo3(rel) == IF Len(rel) >= 3 THEN rel ELSE rel \o [i \in 1..(3 - Len(rel)) |-> 0]
-FromRange(name, r) ==       \* r is a Pep440Ops range; result [ok, a]
-  LET none == [ok |-> FALSE, a |-> [kind |-> "ver", var |-> name, op |-> "==", rel |-> <<0>>, rev |-> FALSE]]
-      mk(op, v, pad) == [ok |-> TRUE, a |-> [kind |-> "ver", var |-> name, op |-> op,
-                                             rel |-> IF name = "python_full_version" /\ pad THEN PadTo3(v.rel) ELSE v.rel, rev |-> FALSE]]
-  IN IF r.lo = <<>> /\ r.hi = <<>> THEN none
-     ELSE IF r.lo = <<>> THEN mk(IF r.ui THEN "<=" ELSE "<", r.hi[1], TRUE)
-     ELSE IF r.hi = <<>> THEN mk(IF r.li THEN ">=" ELSE ">", r.lo[1], TRUE)
-     ELSE LET s == SimplifiedRange(r) IN
-          CASE s.k = "eq"     -> mk("==", r.lo[1], TRUE)
-            [] s.k = "compat" -> mk("~=", r.lo[1], FALSE)          \* no zero padding for ~= (fix commit)
-            [] OTHER          -> none
+EXTENDS MarkerSemOps
 
 \* ----------------------------------------------------------- STATE MACHINES
 VARIABLES item, phase, table
